@@ -1,24 +1,41 @@
 ------------------------------ MODULE MC_FldGrid ------------------------------
 (* C18 on the model: (a) Root is the integer n-th root for all v <= VMax, n <= 4; (b) the counter of Op.increment,
    run as a state machine, visits exactly the k^n index vectors in lexicographic order, last index fastest, then stops;
-   (c) reader filtering.  Canary: a root computed by flooring an inexact real root (one too small on perfect powers). *)
+   (c) reader filtering; (d) the table of an engine whose output locks its previous value, exported over more than a
+   thousand rows: each row's value follows from the previous ROW's (one restart, before the first row).
+   Canaries: a root computed by flooring an inexact real root (one too small on perfect powers); an export that
+   restarts the engine every RestartEvery rows. *)
 EXTENDS FldGrid, TLC, Json
-CONSTANTS VMax, KMax, Emit, FloorRoot
-VARIABLES mode, v, n, hi, x, t, more, visited
-vars == <<mode, v, n, hi, x, t, more, visited>>
+CONSTANTS VMax, KMax, Emit, FloorRoot, RestartEvery
+VARIABLES mode, v, n, hi, x, t, more, visited, prev, col
+vars == <<mode, v, n, hi, x, t, more, visited, prev, col>>
+TableShapes == { <<1499>>, <<39, 39>>, <<10, 10, 10>>, <<2, 3, 255>> }
 \* canary root: exact root minus one on perfect powers above 1 (what int(pow(v, 1/n)) does when the power is rounded down)
 BadRoot(vv, nn) == LET k == Root(vv, nn) IN IF nn = 3 /\ k > 3 /\ IPow(k, nn) = vv THEN k - 1 ELSE k
 TheRoot(vv, nn) == IF FloorRoot THEN BadRoot(vv, nn) ELSE Root(vv, nn)
-Init == \/ (mode = "root" /\ v \in 1..VMax /\ n \in 1..4 /\ hi = <<>> /\ x = <<>> /\ t = 0 /\ more = TRUE /\ visited = <<>>)
-        \/ (mode = "count" /\ v = 0 /\ n \in 1..4 /\ \E k \in 1..KMax : hi = [j \in 1..n |-> k - 1]
-            /\ x = [j \in 1..n |-> 0] /\ t = 0 /\ more = TRUE /\ visited = << [j \in 1..n |-> 0] >>)
-        \/ (mode = "count" /\ v = 1 /\ n = 3 /\ hi \in { <<2, 0, 1>>, <<0, 3, 0>>, <<1, 2, 3>> }      \* inactive variables: radix 1
-            /\ x = <<0, 0, 0>> /\ t = 0 /\ more = TRUE /\ visited = << <<0, 0, 0>> >>)
-Next == /\ mode = "count" /\ more
-        /\ LET r == Increment(x, hi) IN
-           /\ x' = r.x /\ more' = r.more /\ t' = t + 1
-           /\ visited' = IF r.more THEN Append(visited, r.x) ELSE visited
-        /\ UNCHANGED <<mode, v, n, hi>>
+Init == \/ /\ \/ (mode = "root" /\ v \in 1..VMax /\ n \in 1..4 /\ hi = <<>> /\ x = <<>> /\ t = 0 /\ more = TRUE /\ visited = <<>>)
+              \/ (mode = "count" /\ v = 0 /\ n \in 1..4 /\ \E k \in 1..KMax : hi = [j \in 1..n |-> k - 1]
+                  /\ x = [j \in 1..n |-> 0] /\ t = 0 /\ more = TRUE /\ visited = << [j \in 1..n |-> 0] >>)
+              \/ (mode = "count" /\ v = 1 /\ n = 3 /\ hi \in { <<2, 0, 1>>, <<0, 3, 0>>, <<1, 2, 3>> }      \* inactive variables: radix 1
+                  /\ x = <<0, 0, 0>> /\ t = 0 /\ more = TRUE /\ visited = << <<0, 0, 0>> >>)
+           /\ prev = 0 /\ col = <<>>
+        \/ (mode = "table" /\ v = 0 /\ hi \in TableShapes /\ n = Len(hi) /\ x = [j \in 1..Len(hi) |-> 0] /\ t = 0 /\ more = TRUE
+            /\ visited = <<>> /\ prev = RowValue([j \in 1..Len(hi) |-> 0], 0) /\ col = << RowValue([j \in 1..Len(hi) |-> 0], 0) >>)
+Count == /\ mode = "count" /\ more
+         /\ LET r == Increment(x, hi) IN
+            /\ x' = r.x /\ more' = r.more /\ t' = t + 1
+            /\ visited' = IF r.more THEN Append(visited, r.x) ELSE visited
+         /\ UNCHANGED <<mode, v, n, hi, prev, col>>
+\* one row of the table: the engine processes the next grid point in the state the previous row left
+Row == /\ mode = "table" /\ more
+       /\ LET r == Increment(x, hi)
+              p0 == IF RestartEvery > 0 /\ (t + 1) % RestartEvery = 0 THEN 0 ELSE prev
+              val == RowValue(r.x, p0) IN
+          /\ x' = r.x /\ more' = r.more /\ t' = t + 1
+          /\ prev' = IF r.more THEN val ELSE prev
+          /\ col' = IF r.more THEN Append(col, val) ELSE col
+       /\ UNCHANGED <<mode, v, n, hi, visited>>
+Next == Count \/ Row
 Spec == Init /\ [][Next]_vars
 RootIsIntegerRoot == mode = "root" => LET k == TheRoot(v, n) IN k >= 1 /\ IPow(k, n) <= v /\ IPow(k + 1, n) > v
 \* while counting, the current vector is the t-th of the lexicographic enumeration
@@ -26,6 +43,11 @@ CounterIsLexicographic == (mode = "count" /\ more) => x = Vector(t, hi)
 \* it stops exactly after the last vector, having visited each once
 CounterStopsAtEnd == (mode = "count" /\ ~more) => (t = Size(hi, Len(hi)) /\ Len(visited) = Size(hi, Len(hi))
                                                      /\ \A i \in 1..Len(visited) : visited[i] = Vector(i - 1, hi))
+\* a row on which no rule fires repeats the row before it; a row on which one fires shows that rule's constant
+HoldsAcrossRows == (mode = "table" /\ more) =>
+                      /\ Len(col) = t + 1
+                      /\ col[t + 1] = IF Fires(x) # 0 THEN Fires(x) ELSE IF t = 0 THEN 0 ELSE col[t]
 EmitInv == Emit => /\ (mode = "root" => PrintT(ToJson([kind |-> "root", v |-> v, n |-> n, k |-> Root(v, n)])))
                    /\ ((mode = "count" /\ ~more) => PrintT(ToJson([kind |-> "count", hi |-> hi, visited |-> visited])))
+                   /\ ((mode = "table" /\ ~more) => PrintT(ToJson([kind |-> "table", hi |-> hi, col |-> col])))
 =============================================================================
